@@ -136,6 +136,14 @@ type FuncSpec struct {
 	// and an out-parameter argument `x[n:]` is written back with GoX.setSliceFrom.
 	SliceAlias bool
 	TypeSwitch bool // `switch v := x.(type) { case T: .. }` -> match chain over the model's `(x).as_T : Option _` views (first matching case wins, as in Go)
+
+	// ---- error values as structures (C11 error side; default-off)
+	// ErrStruct: `oidc.ErrX().WithDescription(..).WithParent(..)` is NOT collapsed to the name "ErrX": constructors and With-methods are
+	// translated like any other call (Rename["ErrX()"], Rename[".WithDescription()"] = method rename by method NAME, receiver first).
+	// ErrorsAsBind: `if ok := errors.As(e, &v); C {..}` / `if errors.As(e, &v) {..}` -> `let (ok, v) := (Rename["errors.As()"] e v); if C ..`
+	// (the Lean twin returns found? and the target afterwards).
+	ErrStruct    bool
+	ErrorsAsBind bool
 }
 
 // StructLit: `&pkg.T{K: V, ...}` becomes `({ K := V, ... } : Lean)`, restricted to the fields in Keep.
@@ -743,7 +751,7 @@ func (t *tr) argsOf(callee string, as []ast.Expr) string {
 }
 
 func (t *tr) call(c *ast.CallExpr) string {
-	if n := errChain(c); n != "" {
+	if n := errChain(c); n != "" && !t.spec.ErrStruct {
 		return leanStr(n)
 	}
 	fun := c.Fun
@@ -846,6 +854,12 @@ func (t *tr) call(c *ast.CallExpr) string {
 			return "(" + m + " now " + a + ")"
 		}
 		recv := t.expr(sel.X)
+		if r, ok := t.spec.Rename["."+m+"()"]; ok { // method rename by method name: receiver first
+			if a := t.args(c.Args); a != "" {
+				return "(" + r + " " + recv + " " + a + ")"
+			}
+			return "(" + r + " " + recv + ")"
+		}
 		if identityMethods[m] && len(c.Args) == 0 {
 			return recv
 		}
@@ -1729,6 +1743,33 @@ func (t *tr) block(stmts []ast.Stmt, k cont) string {
 			}
 		}
 		cont := rest
+		if t.spec.ErrorsAsBind {
+			// if ok := errors.As(e, &v); C {..}   /   if errors.As(e, &v) {..}
+			var asCall *ast.CallExpr
+			okName := "asOk_"
+			plain := *x
+			if as, isAs := x.Init.(*ast.AssignStmt); isAs && len(as.Lhs) == 1 && len(as.Rhs) == 1 {
+				if c, isCall := as.Rhs[0].(*ast.CallExpr); isCall && exprString(c.Fun) == "errors.As" {
+					asCall, okName = c, exprString(as.Lhs[0])
+					plain.Init = nil
+				}
+			} else if c, isCall := x.Cond.(*ast.CallExpr); isCall && x.Init == nil && exprString(c.Fun) == "errors.As" {
+				asCall = c
+				plain.Cond = ast.NewIdent(okName)
+			}
+			if asCall != nil && len(asCall.Args) == 2 {
+				if u, isAddr := asCall.Args[1].(*ast.UnaryExpr); isAddr && u.Op == token.AND {
+					fn, hasFn := t.spec.Rename["errors.As()"]
+					if !hasFn {
+						fn = "Go.errorsAs"
+					}
+					v := t.expr(u.X)
+					return "let (" + okName + ", " + v + ") := (" + fn + " " + t.expr(asCall.Args[0]) + " " + v + ");\n" + t.pad() +
+						t.block(append([]ast.Stmt{&plain}, stmts[1:]...), k)
+				}
+				return t.bad("errors.As target is not an address", x)
+			}
+		}
 		// if err := f(...); err != nil { body }
 		if x.Init != nil {
 			as, ok := x.Init.(*ast.AssignStmt)
